@@ -17,14 +17,14 @@ BUDGET = {"quick": 35, "thorough": 600}
 RUN_CAP_S = 30.0
 RULE = ("one run = one particle cloud with planted structure (isolated pairs, chains, cliques of 3-6 mutually overlapping spheres, one giant among dust, zero radii, pairs "
         "across a periodic image, fast crossing paths for the line modes) x collision mode {direct,line,tree,linetree} x boundary {none,open,periodic} x ghost rings x root "
-        "boxes x keep_sorted x resolver {record-only, merge, hard sphere}, replayed under R=6 (quick) / 32 (thorough) resolution orders. Non-trivial = some step had >=2 "
+        "boxes x keep_sorted x resolver {record-only, merge, hard sphere, remove-both}, replayed under R=6 (quick) / 32 (thorough) resolution orders. Non-trivial = some step had >=2 "
         "simultaneous collisions sharing a particle; distinct = digest of (mode, boundary, resolver, keep_sorted, cluster structure, orders with different processing sequence).")
 COMPONENTS = {"real": ["collision.c searches (direct, line, tree, linetree), shuffle + index fix-up loop, built-in merge / hard-sphere resolvers", "particle removal paths, tree update, boundary wrap"],
               "simulated": ["internal resolution order (rand_seed seam)", "heap placement (audit after every step)"]}
 ASSUMPTIONS = ["integrator leapfrog with gravity off: one step = straight-line drift + search; the state the search sees is captured by a post_timestep_modifications callback and the documented boundary wrap is applied to it by the model",
                "pairs within a relative band of 1e-9 of the overlap / approach thresholds are don't-care",
                "with a mutating resolver a must-pair may be skipped iff one of its members was removed or already merged earlier in the same step (built-in behaviour: last_collision == t)"]
-PROBES = ["cluster_ge3", "simultaneous_collisions_sharing_particle", "pair_across_periodic_image", "giant_and_dust", "zero_radius", "orders_differ", "merges", "bounces", "tree_mode", "line_mode", "removed_then_remapped_index", "twins_planted", "backward_step_line_search", "bounce_across_moving_image"]
+PROBES = ["remove_both", "cluster_ge3", "simultaneous_collisions_sharing_particle", "pair_across_periodic_image", "giant_and_dust", "zero_radius", "orders_differ", "merges", "bounces", "tree_mode", "line_mode", "removed_then_remapped_index", "twins_planted", "backward_step_line_search", "bounce_across_moving_image"]
 
 MODES = ["direct", "line", "tree", "linetree"]
 
@@ -38,6 +38,8 @@ def generate(rng, tier, index):
     nx, ny, nz = c.choice([(1, 1, 1), (2, 1, 1), (2, 2, 1), (1, 2, 2)])
     L = 10.0
     resolver = c.choice(["record", "merge", "merge", "hardsphere"])
+    if resolver in ("record", "merge") and rng.derive("both").chance(0.15):
+        resolver = "both"       # a user-supplied resolve routine that destroys both bodies (documented return value 3): two removals and two index fix-ups per collision
     keep_sorted = c.choice([0, 1]) if mode in ("direct", "line") else 0
     ng = c.choice([0, 1, 1, 2]) if boundary == "periodic" else 0
     if resolver == "hardsphere" and rng.derive("shear").chance(0.35):
@@ -285,6 +287,8 @@ def execute(case, ctx):
                         # kinetic energy is frame dependent: only meaningful without a ghost velocity shift (periodic boxes have none)
                         if abs(k0 - k1) > 1e-10 * (abs(k0) + 1e-300):
                             err.append("elastic bounce changed the pair's kinetic energy (%r -> %r)" % (k0, k1))
+            elif resolver == "both":
+                out = 3
             else:
                 out = 0
             ledger.append((stepno[0], h1, h2, (c.gb.x, c.gb.y, c.gb.z), out))
@@ -420,7 +424,7 @@ def execute(case, ctx):
             if any(v >= 3 for v in cnt.values()):
                 probe("cluster_ge3")
             gone = set()
-            if resolver == "merge":
+            if resolver in ("merge", "both"):
                 # members removed / already merged earlier in this step excuse later pairs
                 for l in ledger:
                     if l[0] == st and l[4]:
@@ -497,6 +501,32 @@ def execute(case, ctx):
                             bad = True
                             break
                 if bad:
+                    break
+            elif resolver == "both":
+                # every resolved pair is destroyed: the survivors are exactly the bodies never handed over, untouched; nobody is handed over twice
+                removed = set()
+                for l in ledger:
+                    if l[0] != st:
+                        continue
+                    _, h1, h2, gb, out = l
+                    if h1 in removed or h2 in removed:
+                        viol("ledger", "resolve routine was handed a particle that had already been removed in this step", "%s step %d: pair (%d,%d)" % (tagm, st, h1, h2), key="ledger:removed-particle-reused", seed=seed)
+                        bad = True
+                        break
+                    probe("remove_both")
+                    removed.update((h1, h2))
+                if bad:
+                    break
+                want = {h: m for (h, x, y, z, vx, vy, vz, m, r) in seen_state if h not in removed}
+                got = {a[0]: a[7] for a in after[st]}
+                if len(got) != len(after[st]):
+                    viol("ledger", "a particle appears twice after the step", tagm, key="ledger:duplicate", seed=seed)
+                    bad = True
+                    break
+                if got != want:
+                    viol("ledger", "surviving particles differ from the removal ledger", "%s step %d: lost %s, unexpected %s (pairs destroyed %d, N %d -> %d)" % (
+                        tagm, st, sorted(set(want) - set(got))[:5], sorted(set(got) - set(want))[:5], len(removed) // 2, len(seen_state), len(after[st])), key="ledger:survivors", seed=seed)
+                    bad = True
                     break
             elif resolver in ("record", "hardsphere"):
                 if len(after[st]) != len(seen_state) or set(a[0] for a in after[st]) != set(s_[0] for s_ in seen_state):
